@@ -1168,19 +1168,21 @@ class OdeSystem(object):
         return print_str
 
     def __getitem__(self, index):
-        if isinstance(index, int):
+        if isinstance(index, (int, np.integer)):
             if index > self.counter:
                 raise IndexError(
                     "index {} out of bounds for integrations with {} steps".format(index, self.counter + 1))
             else:
                 return StateTuple(t=self.t[index], y=self.y[index], event=None)
         elif isinstance(index, slice):
+            # the recorded times decrease when the system was integrated backward in time
+            t_sign = -1 if (self.counter > 0 and self.t[-1] < self.t[0]) else 1
             if index.start is not None:
-                start_idx = deutil.search_bisection(self.t[:self.counter + 1], index.start)
+                start_idx = deutil.search_bisection(t_sign * self.t, t_sign * index.start)
             else:
                 start_idx = 0
             if index.stop is not None:
-                end_idx = deutil.search_bisection(self.t[:self.counter + 1], index.stop) + 1
+                end_idx = deutil.search_bisection(t_sign * self.t, t_sign * index.stop) + 1
             else:
                 end_idx = self.counter + 1
             if index.step is not None:
@@ -1192,15 +1194,8 @@ class OdeSystem(object):
             if self.__dense_output and self.sol is not None:
                 return StateTuple(t=index, y=self.sol(index), event=None)
             else:
-                nearest_idx = deutil.search_bisection(self.__t, index)
-                if nearest_idx < self.counter:
-                    if D.ar_numpy.abs(D.ar_numpy.to_numpy(self.t[nearest_idx] - index)) < D.ar_numpy.abs(
-                            D.ar_numpy.to_numpy(self.t[nearest_idx + 1] - index)):
-                        return StateTuple(t=self.t[nearest_idx], y=self.y[nearest_idx], event=None)
-                    else:
-                        return StateTuple(t=self.t[nearest_idx + 1], y=self.y[nearest_idx + 1], event=None)
-                else:
-                    return StateTuple(t=self.t[nearest_idx], y=self.y[nearest_idx], event=None)
+                nearest_idx = int(D.ar_numpy.argmin(D.ar_numpy.abs(self.t - index)))
+                return StateTuple(t=self.t[nearest_idx], y=self.y[nearest_idx], event=None)
 
     def __len__(self):
         return self.counter + 1
